@@ -38,6 +38,22 @@ def check_hkdf(ctx, rule, inst, term, info, length, data, site=None):
     return ok
 
 
+def input_total(ctx, rule, inst, o, inp, site=None):
+    """'For every password / seed': the returning path may not depend on the input except through
+    type checks and assertions about the length of the HKDF output."""
+    extra = []
+    for (t, p, _) in o.state.pc:
+        if not any(x == inp for x in subterms(t)) or is_app(t, "isinstance"):
+            continue
+        if is_app(t, "Eq", "NotEq", "GtE", "LtE", "Gt", "Lt") and any(is_app(a, "len") and is_app(a.args[0], ".derive") for a in t.args):
+            continue
+        if is_app(t, "Eq", "NotEq") and any(is_app(a, "pow") for a in t.args):
+            continue      # membership assertion on the derived element
+        extra.append(show(t, maxdepth=4) + "=" + str(p))
+    ctx.ob(rule, inst, not extra, "defined for every input (no condition on the input on the returning path)" if not extra else
+           "the derivation also depends on %s: it is not the published function for every input" % extra, site)
+
+
 def integer(ctx, world, ev):
     st, g, syms = gm.symbolic_int_group(world, ev)
     p, q = syms["p"], syms["q"]
@@ -58,6 +74,7 @@ def integer(ctx, world, ev):
         shape = is_app(v, "Mod") and v.args[1] == q and is_app(v.args[0], "be2int") and is_app(v.args[0].args[0], ".derive")
         ctx.ob("H2", gname + ".password_to_scalar", shape, "big-endian integer of the HKDF output reduced mod q" if shape else
                "password_to_scalar is %s, expected be2int(HKDF(pw)) mod q" % show(v, maxdepth=6), site)
+        input_total(ctx, "H2-total", gname + ".password_to_scalar", o, pw, site)
         if shape:
             check_hkdf(ctx, "H1", gname + ".password_to_scalar", v, INFO_PW, length, pw, site)
     # H5 arbitrary_element
@@ -73,6 +90,7 @@ def integer(ctx, world, ev):
         r = mk_app("FloorDiv", (mk_app("Sub", (p, Const(1))), q))
         ok = len(vals) == 1 and is_app(vals[0], "pow") and len(vals[0].args) == 3 and vals[0].args[1] == r and vals[0].args[2] == p \
             and is_app(vals[0].args[0], "Mod") and vals[0].args[0].args[1] == p and is_app(vals[0].args[0].args[0], "be2int")
+        input_total(ctx, "H5-total", gname + ".arbitrary_element", o, seed, o.site)
         ctx.ob("H5", gname + ".arbitrary_element form", ok, "element = (be2int(HKDF(seed)) mod p) ^ ((p-1)//q) mod p, in this group" if ok else
                "arbitrary_element is %s, expected pow(be2int(HKDF(seed)) %% p, (p-1)//q, p)" % [show(v, maxdepth=6) for v in vals], o.site)
         if ok:
@@ -103,6 +121,7 @@ def ed25519(ctx, world, ev):
         shape = is_app(v, "Mod") and v.args[1] == L and is_app(v.args[0], "be2int") and is_app(v.args[0].args[0], ".derive")
         ctx.ob("H2", "Ed25519.password_to_scalar", shape, "big-endian integer of the HKDF output reduced mod L" if shape else
                "password_to_scalar is %s" % show(v, maxdepth=6), o.site)
+        input_total(ctx, "H2-total", "Ed25519.password_to_scalar", o, pw, o.site)
         if shape:
             check_hkdf(ctx, "H1", "Ed25519.password_to_scalar", v, INFO_PW, Const(48), pw, o.site)
     # the two group classes share one derivation function (sibling agreement)
